@@ -106,3 +106,39 @@ Example C03_code_cmap_example :
   tr_u2g [([97], [97]); ([98], [98; 97])] = inr ([98], 97, [97]).
 Proof. exact code_u2g_example. Qed.
 Print Assumptions C03_code_cmap_example.
+
+(* ---- unicode variation sequences -> cmap format 14 (Order/Uvs.v; setupTable_cmap after repair F34) ---- *)
+From U2F Require Import Order.Uvs Order.UvsProofs.
+
+(* every stored sequence comes from the lib, names an EXPORTED glyph, and is a default sequence exactly when that glyph is what
+   the character map gives the base code point *)
+Theorem C03_uvs_sound : forall glyphset m src vs l x,
+  In (vs, l) (uvs_table glyphset m src) -> In x l ->
+  exists seqs e, In (vs, seqs) src /\ In e seqs /\ mem (snd e) glyphset = true /\ fst x = fst e /\
+                 (snd x = None <-> zassoc (fst e) m = Some (snd e)) /\ (forall g, snd x = Some g -> g = snd e).
+Proof. exact uvs_table_sound. Qed.
+Print Assumptions C03_uvs_sound.
+
+(* every sequence of the lib whose glyph is exported is stored under its selector *)
+Theorem C03_uvs_complete : forall glyphset m src vs seqs e,
+  In (vs, seqs) src -> In e seqs -> mem (snd e) glyphset = true ->
+  exists l x, In (vs, l) (uvs_table glyphset m src) /\ In x l /\ fst x = fst e.
+Proof. exact uvs_table_complete. Qed.
+Print Assumptions C03_uvs_complete.
+
+(* nothing in the subtable names a glyph outside the compiled glyph set (a font that names one cannot be saved), and no
+   selector is listed without a sequence *)
+Theorem C03_uvs_names_exported_glyphs_only : forall glyphset m src vs l x g,
+  In (vs, l) (uvs_table glyphset m src) -> In x l -> snd x = Some g -> mem g glyphset = true.
+Proof. exact uvs_table_names_exported_glyphs_only. Qed.
+Print Assumptions C03_uvs_names_exported_glyphs_only.
+
+Theorem C03_uvs_no_empty_selector : forall glyphset m src vs, ~ In (vs, []) (uvs_table glyphset m src).
+Proof. exact uvs_table_no_empty_selector. Qed.
+Print Assumptions C03_uvs_no_empty_selector.
+
+Example C03_uvs_of_a_missing_glyph_is_dropped :
+  let glyphset := [[97]] in let m := [(97, [97])] in let src := [(65024, [(97, [97; 46; 118])])] in
+  uvs_table glyphset m src = [] /\ has_uvs_subtable glyphset m src = false.
+Proof. exact uvs_v0_stored_a_missing_glyph. Qed.
+Print Assumptions C03_uvs_of_a_missing_glyph_is_dropped.
